@@ -26,6 +26,22 @@ def mset(g):
     return (sorted(int(k) for k, _ in g), sorted((int(k), int(d)) for k, ds in g for d in ds))
 
 
+def qcall(fn):
+    """common.call without the per-call stdout capture (one_case makes ~70 calls per case; run() captures stdout once around
+    the whole loop instead)"""
+    try:
+        return ('ok', fn())
+    except RecursionError:
+        return ('err', 'other:RecursionError')
+    except Exception as e:  # noqa
+        return ('err', exc_name(e))
+
+
+ORDERED_FORMS = ('tuple', 'list', 'list naming nodes twice')
+ARG_FORMS = (('set', set), ('frozenset', frozenset), ('tuple', tuple), ('list', list),
+             ('list naming nodes twice', lambda xs: list(xs) + list(reversed(xs))[:2] + list(xs)[:1]))
+
+
 def one_case(V, E, X):
     from pyModelChecking.graph import DiGraph
     G = DiGraph(V=V, E=E)
@@ -37,21 +53,37 @@ def one_case(V, E, X):
     for nm, mkV, mkE in (('tuples', tuple, tuple), ('iterators', iter, iter), ('generator of lists', list, lambda e: (list(x) for x in e)),
                          ('zip', list, lambda e: zip([a for a, _ in e], [b for _, b in e])), ('sets', set, set),
                          ('lists with repeated nodes and edges', lambda v: list(v) + list(v)[:2], lambda e: list(e) + list(e)[:2])):
-        r0 = call(lambda: DiGraph(V=mkV(list(V)), E=mkE(list(E))))
+        r0 = qcall(lambda: DiGraph(V=mkV(list(V)), E=mkE(list(E))))
         if r0[0] != 'ok' or gset(r0[1]) != obs['ctor'][1]:
             forms.append('%s: %s' % (nm, r0[1] if r0[0] != 'ok' else gset(r0[1])))
     obs['ctor_forms'] = forms
-    r = call(lambda: G.get_reachable_set_from(list(X)))
+    held = []                                # (what, result OBJECT, its value when it was returned): read again at the end
+    r = qcall(lambda: G.get_reachable_set_from(list(X)))
     obs['reach'] = ('ok', sorted(r[1])) if r[0] == 'ok' else r
-    r = call(lambda: G.get_reversed_graph())
+    if r[0] == 'ok':
+        held.append(('get_reachable_set_from(%s)' % list(X), r[1], obs['reach'][1]))
+        # a LATER call with other nodes: the earlier result is the caller's, it must keep its value and be another object
+        others = [[v] for v in list(G._next)[:2]] + [[v for v in G._next if v not in r[1]], []]
+        for Y in others:
+            r2 = qcall(lambda: G.get_reachable_set_from(list(Y)))
+            if r2[0] == 'ok':
+                held.append(('get_reachable_set_from(%s)' % Y, r2[1], sorted(r2[1])))
+    r = qcall(lambda: G.get_reversed_graph())
     obs['rev'] = ('ok', gset(r[1])) if r[0] == 'ok' else r
     if r[0] == 'ok':
-        rr = call(lambda: r[1].get_reversed_graph())
+        held.append(('get_reversed_graph()', r[1], obs['rev'][1]))
+        rr = qcall(lambda: r[1].get_reversed_graph())
         obs['revrev'] = ('ok', gset(rr[1])) if rr[0] == 'ok' else rr
         obs['rev_shares'] = any(id(v) in i0.values() for v in r[1]._next.values())
-    r = call(lambda: G.get_subgraph(list(X)))
+    r = qcall(lambda: G.get_subgraph(list(X)))
     obs['sub'] = ('ok', gset(r[1])) if r[0] == 'ok' else r
-    r = call(lambda: G.clone())
+    if r[0] == 'ok':
+        held.append(('get_subgraph(%s)' % list(X), r[1], obs['sub'][1]))
+        Y = [v for v in G._next if v not in X] + list(X)[:1]
+        r2 = qcall(lambda: G.get_subgraph(list(Y)))
+        if r2[0] == 'ok':
+            held.append(('get_subgraph(%s)' % Y, r2[1], gset(r2[1])))
+    r = qcall(lambda: G.clone())
     obs['clone'] = ('ok', gset(r[1])) if r[0] == 'ok' else r
     if r[0] == 'ok':
         C = r[1]
@@ -67,20 +99,31 @@ def one_case(V, E, X):
     if obs['reach'][0] == 'ok':
         base = obs['reach'][1]
         xs = list(X)
-        for form, mk in (('set', set), ('frozenset', frozenset), ('tuple', tuple)):   # containers only: a one-shot iterator is not a 'set of nodes'
+        for form, mk in ARG_FORMS:   # containers only: a one-shot iterator is not a 'set of nodes'
             arg = mk(xs)
-            keep = list(arg) if form == 'tuple' else set(arg)
-            r2 = call(lambda: G.get_reachable_set_from(arg))
+            keep = list(arg) if form in ORDERED_FORMS else set(arg)
+            r2 = qcall(lambda: G.get_reachable_set_from(arg))
             if r2[0] != 'ok' or sorted(r2[1]) != base:
                 forms_bad.append('%s: %s' % (form, r2[1] if r2[0] != 'ok' else sorted(r2[1])))
-            elif keep is not None and (list(arg) if form == 'tuple' else set(arg)) != keep:
+            elif (list(arg) if form in ORDERED_FORMS else set(arg)) != keep:
                 forms_bad.append('%s argument was modified' % form)
-            elif form == 'set' and r2[1] is arg:
-                forms_bad.append('the result IS the caller\'s set object')
+            elif r2[1] is arg:
+                forms_bad.append('the result IS the caller\'s %s object' % form)
+    if obs['sub'][0] == 'ok':
+        # get_subgraph: same forms (a list may name a node twice, e.g. the concatenation of two results)
+        xs = list(X)
+        for form, mk in ARG_FORMS:
+            arg = mk(xs)
+            keep = list(arg) if form in ORDERED_FORMS else set(arg)
+            r2 = qcall(lambda: G.get_subgraph(arg))
+            if r2[0] != 'ok' or gset(r2[1]) != obs['sub'][1]:
+                forms_bad.append('get_subgraph(%s): %s' % (form, r2[1] if r2[0] != 'ok' else gset(r2[1])))
+            elif (list(arg) if form in ORDERED_FORMS else set(arg)) != keep:
+                forms_bad.append('get_subgraph: %s argument was modified' % form)
     for v in list(G._next)[:3]:
         internal = G.next(v)
-        want = call(lambda: G.get_reachable_set_from(list(internal)))
-        got = call(lambda: G.get_reachable_set_from(internal))
+        want = qcall(lambda: G.get_reachable_set_from(list(internal)))
+        got = qcall(lambda: G.get_reachable_set_from(internal))
         if want[0] == 'ok' and (got[0] != 'ok' or sorted(got[1]) != sorted(want[1])):
             forms_bad.append('next(%r) as argument: %s' % (v, got))
         if got[0] == 'ok' and got[1] is internal:
@@ -91,30 +134,57 @@ def one_case(V, E, X):
     rep_bad = []
     xs = list(X)
     for nm, op in (('rev', lambda: G.get_reversed_graph()), ('sub', lambda: G.get_subgraph(list(xs))), ('clone', lambda: G.clone())):
-        a = call(op)
+        a = qcall(op)
         if a[0] != 'ok' or tuple(obs[nm]) != ('ok', gset(a[1])):
             if a[0] == 'ok' or tuple(obs[nm]) != tuple(a):
                 rep_bad.append('%s: second call differs from the first' % nm)
             continue
         H = a[1]
+        if nm == 'clone':
+            # the clone is EQUAL to G: every operation run ON the clone answers as it does on G
+            for what, fn, want in (('get_reversed_graph()', lambda: gset(H.get_reversed_graph()), obs['rev']),
+                                   ('get_reachable_set_from(X)', lambda: sorted(H.get_reachable_set_from(list(xs))), obs['reach']),
+                                   ('get_subgraph(X)', lambda: gset(H.get_subgraph(list(xs))), obs['sub']),
+                                   ('clone()', lambda: gset(H.clone()), obs['clone'])):
+                q = qcall(fn)
+                if tuple(q) != tuple(want):
+                    rep_bad.append('clone().%s gives %s, on G it gives %s' % (what, q[1], want[1]))
         fresh = ('edited', nm)
-        call(lambda: H.add_node(fresh))
+        qcall(lambda: H.add_node(fresh))
         hn = list(H._next)
-        call(lambda: H.add_edge(hn[0], fresh))
+        qcall(lambda: H.add_edge(hn[0], fresh))
         if len(hn) > 1:
-            call(lambda: H.add_edge(hn[-1], hn[0]))
-            call(lambda: H.add_edge(hn[0], hn[-1]))
-        b = call(op)
+            qcall(lambda: H.add_edge(hn[-1], hn[0]))
+            qcall(lambda: H.add_edge(hn[0], hn[-1]))
+        # the caller USES the edited result before it comes back to G
+        qcall(lambda: H.get_reachable_set_from([v for v in xs if v in H._next]))
+        qcall(lambda: (H.get_reversed_graph(), H.get_subgraph(list(xs)), H.clone()))
+        b = qcall(op)
         if b[0] != 'ok' or b[1] is H or ('ok', gset(b[1])) != tuple(obs[nm]):
             rep_bad.append('%s: after the caller edited an earlier result, the call returns %s' % (nm, 'the edited object' if b[0] == 'ok' and b[1] is H else (gset(b[1]) if b[0] == 'ok' else b)))
     if obs['reach'][0] == 'ok':
-        a = call(lambda: G.get_reachable_set_from(list(xs)))
+        a = qcall(lambda: G.get_reachable_set_from(list(xs)))
+        if a[0] != 'ok' or sorted(map(repr, a[1])) != sorted(map(repr, obs['reach'][1])):
+            rep_bad.append('reach: after the caller edited and used the graphs derived from G, G.get_reachable_set_from(X) returns %s' % (sorted(map(repr, a[1])) if a[0] == 'ok' else (a,)))
         if a[0] == 'ok':
             a[1].add(('edited', 'reach'))
             a[1].difference_update(list(G._next)[:1])
-            b = call(lambda: G.get_reachable_set_from(list(xs)))
+            b = qcall(lambda: G.get_reachable_set_from(list(xs)))
             if b[0] != 'ok' or sorted(map(repr, b[1])) != sorted(map(repr, obs['reach'][1])):
                 rep_bad.append('reach: after the caller edited an earlier result, the call returns %s' % (sorted(map(repr, b[1])) if b[0] == 'ok' else (b,)))
+    # every result handed out EARLIER still has the value it had when it was returned, and no two results are one object
+    # (nor share a successor set)
+    cells = {}
+    for j, (what, o, val) in enumerate(held):
+        now = qcall(lambda: gset(o) if isinstance(o, DiGraph) else sorted(o))
+        if now[0] != 'ok' or now[1] != val:
+            rep_bad.append('the result of %s, kept by the caller, became %s after later calls (it was %s)' % (what, now[1], val))
+        for c in ([o] if not isinstance(o, DiGraph) else [o._next] + list(o._next.values())):
+            if cells.get(id(c), j) != j:
+                rep_bad.append('the results of %s and of %s share an object' % (held[cells[id(c)]][0], what))
+            cells[id(c)] = j
+        if isinstance(o, DiGraph) and len(set(map(id, o._next.values()))) != len(o._next):
+            rep_bad.append('in the result of %s several nodes share ONE successor set object' % what)
     obs['results_independent'] = rep_bad
     obs['unchanged'] = (snap(G) == s0 and ids(G) == i0)
     return G, obs
@@ -138,6 +208,9 @@ FAMILIES = {
     'object': lambda i: Station(i),
     'tuple_of_objects': lambda i: (Station(i), i),
     'mixed': lambda i: [i, 's%d' % i, (i,), Station(i), frozenset([i]), -i - 1.5][i % 6],
+    # None / falsy nodes; distinct nodes with equal str() (1 next to '1'); cf. graphgen.NODE_FAMILIES
+    'none_and_falsy': lambda i: [None, 0, '', (), frozenset(), -1, 'None'][i] if i < 7 else i,
+    'equal_str': lambda i: [1, '1', (1,), '(1,)', Named(1), "'1'", 2][i] if i < 7 else 's%d' % i,
 }
 
 
@@ -347,6 +420,156 @@ def run_mutators(R):
     R.cov['mutator_interleaved_reads'] = nreads
 
 
+# ---------- histories over several objects: operations run ON clones / reversed graphs / subgraphs, edits in between ----------
+def chain_observer(Q, held):
+    """every read-only operation on one object of a history, results canonicalised at once; the result OBJECTS are kept"""
+    from pyModelChecking.graph import DiGraph
+
+    def observe(G, i):
+        s0 = snap(G)
+        ob = {'reach': [], 'sub': []}
+        for X in Q:
+            arg = list(X)
+            r = call(lambda: G.get_reachable_set_from(arg))
+            ob['reach'].append(['ok', sorted(r[1], key=repr)] if r[0] == 'ok' else list(r))
+            if r[0] == 'ok':
+                held.append(('object %d.get_reachable_set_from(%s)' % (i, X), r[1], sorted(r[1], key=repr)))
+            r = call(lambda: G.get_subgraph(arg))
+            ob['sub'].append(['ok', gset(r[1])] if r[0] == 'ok' and isinstance(r[1], DiGraph) else list(r))
+            if r[0] == 'ok' and isinstance(r[1], DiGraph):
+                held.append(('object %d.get_subgraph(%s)' % (i, X), r[1], gset(r[1])))
+            if arg != list(X):
+                ob['sub'][-1] = ['err', 'other:the list given as argument was modified']
+        for nm, op in (('rev', lambda: G.get_reversed_graph()), ('clone', lambda: G.clone())):
+            r = call(op)
+            ob[nm] = ['ok', gset(r[1])] if r[0] == 'ok' and isinstance(r[1], DiGraph) else list(r)
+            if r[0] == 'ok' and isinstance(r[1], DiGraph):
+                held.append(('object %d.%s' % (i, {'rev': 'get_reversed_graph()', 'clone': 'clone()'}[nm]), r[1], gset(r[1])))
+        # the plain readers must answer for the object as it is (a clone / derived graph that forgot some internal
+        # bookkeeping of its original shows up here); compared with the presentation read from the object itself
+        r = call(lambda: [sorted(G.nodes(), key=repr), sorted(G.edges(), key=repr), sorted(G.sources(), key=repr),
+                          sorted(((v, sorted(G.next(v), key=repr)) for v in G.nodes()), key=repr)])
+        want = [sorted(G._next, key=repr), sorted(((a, b) for a, ds in G._next.items() for b in ds), key=repr),
+                sorted((a for a, ds in G._next.items() if ds), key=repr), sorted(((a, sorted(ds, key=repr)) for a, ds in G._next.items()), key=repr)]
+        ob['readers'] = None if r[0] == 'ok' and r[1] == want else 'nodes() / edges() / sources() / next() give %s, the object holds %s' % (r[1], want)
+        ob['unchanged'] = (snap(G) == s0)
+        return ob
+    return observe
+
+
+def chain_cmds(chain, steps):
+    """the model evaluations one history needs (the presentations are read from the live objects at each moment)"""
+    out = []
+    for st in steps:
+        op = st['op']
+        if op[0] == 'edge':
+            out.append(['addedge', st['before'], op[1], op[2]])
+        elif op[0] == 'node':
+            out.append(['addnode', st['before'], op[1]])
+        elif op[0] in ('clone', 'rev'):
+            out.append([op[0], st['before']])
+        elif op[0] == 'sub':
+            out.append(['sub', st['before'], list(op[1])])
+        for (i, p, ob) in st['obs']:
+            if ints_only(p):
+                out.append(['rev', p])
+                out.append(['clone', p])
+                for X in chain['Q']:
+                    out.append(['reach', p, list(X)])
+                    out.append(['sub', p, list(X)])
+    return [c for c in out if ints_only(c[1])]
+
+
+def chain_check(chain, steps, shared, objs, held, model):
+    """first disagreement of one history with the model (None = agrees)"""
+    from pyModelChecking.graph import DiGraph
+    for k, st in enumerate(steps):
+        op = st['op']
+        for (i, p, ob) in st['obs']:
+            if not ints_only(p):
+                return 'after step %d (%s) object %d is no longer a graph over ints: %r' % (k, op, i, p)
+        now = {i: p for (i, p, ob) in st['obs']}
+        where = 'step %d (%s applied to object %d, which was %r)' % (k, op, st['target'], st['before'])
+        if op[0] in ('edge', 'node'):
+            m = model(['addedge', st['before'], op[1], op[2]] if op[0] == 'edge' else ['addnode', st['before'], op[1]])
+            if m[0] == 'ok':
+                if st['outcome'] != 'ok' or mset(now[st['target']]) != mset(m[1]):
+                    return '%s: %s, object is now %s; model: %s' % (where, st['outcome'], mset(now[st['target']]), mset(m[1]))
+            elif st['outcome'] != 'RuntimeError' or mset(now[st['target']]) != mset(st['before']):
+                return '%s: %s, object is now %s; model: RuntimeError, nothing changes' % (where, st['outcome'], mset(now[st['target']]))
+        elif op[0] in ('clone', 'rev', 'sub'):
+            m = model([op[0], st['before']] + ([list(op[1])] if op[0] == 'sub' else []))
+            if st['outcome'] != 'ok' or mset(now[st['new']]) != mset(m):
+                return '%s: %s%s; model: %s' % (where, st['outcome'], (', the result is %s' % (mset(now[st['new']]),)) if st['new'] is not None else '', mset(m))
+            if mset(now[st['target']]) != mset(st['before']):
+                return '%s changed the object to %s' % (where, mset(now[st['target']]))
+        # every object of the history, asked again
+        for (i, p, ob) in st['obs']:
+            asked = 'after %s object %d (now %r)' % (where, i, p)
+            if not ob['unchanged']:
+                return '%s was changed by a read-only call' % asked
+            if ob['readers']:
+                return '%s: %s' % (asked, ob['readers'])
+            for nm in ('rev', 'clone'):
+                want = ['ok', mset(model([nm, p]))]
+                if ob[nm] != want and [ob[nm][0], tuple(ob[nm][1])] != [want[0], tuple(want[1])]:
+                    return '%s: %s gives %s; model: %s' % (asked, nm, ob[nm], want)
+            for X, got_r, got_s in zip(chain['Q'], ob['reach'], ob['sub']):
+                m = model(['reach', p, list(X)])
+                want = ['ok', sorted(ints(m[1]))] if m[0] == 'ok' else ['err', str(m[1])]
+                if list(got_r) != want:
+                    return '%s: get_reachable_set_from(%s) gives %s; model: %s' % (asked, X, got_r, want)
+                want = ['ok', mset(model(['sub', p, list(X)]))]
+                if [got_s[0], tuple(got_s[1]) if got_s[0] == 'ok' else got_s[1]] != [want[0], tuple(want[1])]:
+                    return '%s: get_subgraph(%s) gives %s; model: %s' % (asked, X, got_s, want)
+    if shared:
+        return 'objects of the history are not independent: ' + '; '.join(shared[:3])
+    # results handed out earlier keep their value and are nobody else's object
+    cells = {}
+    for i, o in enumerate(objs):
+        for c in [o._next] + list(o._next.values()):
+            cells[id(c)] = 'object %d' % i
+    for (what, o, val) in held:
+        nowv = call(lambda: gset(o) if isinstance(o, DiGraph) else sorted(o, key=repr))
+        if nowv[0] != 'ok' or nowv[1] != val:
+            return 'the result of %s, kept by the caller, became %s after later calls (it was %s)' % (what, nowv[1], val)
+        for c in ([o] if not isinstance(o, DiGraph) else [o._next] + list(o._next.values())):
+            if cells.get(id(c), what) != what:
+                return 'the result of %s shares an object with %s' % (what, cells[id(c)])
+            cells[id(c)] = what
+    return None
+
+
+def run_chains(R, only=None):
+    rng = random.Random(R.seed + 1313)
+    chains = [only] if only else [rand_chain(rng, nmax=5, kmax=5) for _ in range(3000 if R.thorough else 300)]
+    runs, cmds, at = [], [], {}
+    for ch in chains:
+        held = []
+        steps, shared, objs = exec_chain(ch, chain_observer(ch['Q'], held), call)
+        runs.append((ch, steps, shared, objs, held))
+        for c in chain_cmds(ch, steps):
+            key = sx_str(c)
+            if key not in at:
+                at[key] = len(cmds)
+                cmds.append(c)
+    outs = model_batch_parallel(cmds)
+    kinds, first = {}, None
+    for ch, steps, shared, objs, held in runs:
+        R.evaluations += sum(len(st['obs']) for st in steps)
+        what = chain_check(ch, steps, shared, objs, held, lambda c: outs[at[sx_str(c)]])
+        if what:
+            R.violation('history over several graph objects: ' + what, {'stream': 'histories', 'chain': ch, 'disagreement': what})
+            first = first or what
+            continue
+        for st in steps:
+            kinds[st['op'][0]] = kinds.get(st['op'][0], 0) + 1
+        if len(objs) > 1:
+            R.nontriv(('history', json.dumps(ch, sort_keys=True)))
+    R.cov['histories_over_several_objects'] = {'histories': len(chains), 'steps_by_kind': kinds, 'distinct_model_evaluations': len(cmds)}
+    return first
+
+
 def run_large(R):
     """graphs with thousands of nodes (the model's unary numbers are not run at this size; the expected values are known in
     closed form): a chain 0 -> 1 -> ... -> n with one back edge n -> n/2.  The operations are iterative worklists, they may not
@@ -378,10 +601,23 @@ def run(R):
     R.rule = ('(digraph, node subset X) pairs: all digraphs with <= 3 nodes x all subsets of nodes+one foreign node '
               '(every 11th 4-node graph in quick, every 2nd in thorough), random n <= 12; observables: reachable set / RuntimeError, '
               'reversed graph, double reversal, induced subgraph, clone, aliasing and before/after snapshot of G; '
-              'non-trivial = reach set strictly between X and all nodes, or subgraph drops at least one edge and keeps one')
+              'non-trivial = reach set strictly between X and all nodes, or subgraph drops at least one edge and keeps one. '
+              'In every case: X is also passed as set / frozenset / tuple / list / list naming nodes twice to get_reachable_set_from '
+              'AND get_subgraph (same answer, argument unmodified); the first result OBJECTS of reach / reversed / subgraph are '
+              'kept while later calls with other node sets are made and read again at the end (value unchanged, no two results '
+              'share an object, no two nodes of a result share a successor set); every operation is run ON the clone (same '
+              'answers as on G); edited derived graphs are USED (reach / reversed / subgraph / clone) before G is asked again. '
+              'Stream "histories": random histories over several objects (graphgen.rand_chain: add_edge / add_node in place, '
+              'clone / reversed / subgraph with work continuing on the derived object or on the original, goto): after EVERY '
+              'step EVERY object of the history is asked reach(Q) / subgraph(Q) (Q fixed per history, may name a node twice or a '
+              'foreign node) / reversed / clone / nodes / edges / sources / next and compared with the model on that object\'s '
+              'current presentation; each edit / derivation is compared with the model (add_edge_r, add_node_r, reversed, '
+              'subgraph, clone); all result objects of the history are held to the end (values unchanged, pairwise distinct '
+              'cells). Node-object stream: + None / falsy nodes and distinct nodes with equal str()')
     rng = R.rng
     run_exotic(R)
     run_mutators(R)
+    run_chains(R)
     run_large(R)
     cases = []
     for n in range(0, 4):
@@ -407,11 +643,12 @@ def run(R):
             X += [n + 5 + j for j in range(rng.randint(1, n + 1))]     # foreign nodes, possibly |X| >= |V|
         cases.append((V, rand_digraph(rng, n), X))
     cmds, meta = [], []
-    for (V, E, X) in cases:
-        G, obs = one_case(V, E, X)
-        g = obs.pop('presentation')
-        cmds += [['reach', g, X], ['rev', g], ['sub', g, X], ['clone', g], ['mkg', list(V), [list(e) for e in E]]]
-        meta.append((V, E, X, obs, g))
+    with contextlib.redirect_stdout(io.StringIO()):
+        for (V, E, X) in cases:
+            G, obs = one_case(V, E, X)
+            g = obs.pop('presentation')
+            cmds += [['reach', g, X], ['rev', g], ['sub', g, X], ['clone', g], ['mkg', list(V), [list(e) for e in E]]]
+            meta.append((V, E, X, obs, g))
     outs = model_batch_parallel(cmds)
     for i, (V, E, X, obs, g) in enumerate(meta):
         R.evaluations += 1
@@ -448,15 +685,28 @@ def run(R):
             R.nontriv((tuple(V), tuple(sorted(E)), tuple(sorted(X))))
             R.sample({'V': V, 'E': E, 'X': X, 'reach': obs['reach'][1] if obs['reach'][0] == 'ok' else obs['reach'], 'subgraph': obs['sub'][1]})
     R.cov['distribution'] = {'runtime_errors_expected': sum(1 for m_ in meta if m_[3]['reach'][0] == 'err')}
+    R.cov['per_case_observers'] = {'argument_forms_reach_and_subgraph': [f for f, _ in ARG_FORMS],
+                                   'held_result_objects_reread_at_end': True, 'operations_run_on_clone': 4,
+                                   'cases_where_the_repeating_list_names_an_existing_node_twice': sum(1 for m_ in meta if any(x in m_[0] for x in m_[2]))}
     R.exhaustive = False
 
 
 def replay(R, data):
     d = data['data']
+    R.seed = data.get('seed', R.seed)
     if d.get('stream') == 'large':
         n0 = len(R.violations)
         run_large(R)
         print('large graphs re-run: %d violation(s)' % (len(R.violations) - n0))
+        return
+    if d.get('stream') == 'histories':
+        what = run_chains(R, only=d['chain'])
+        print('history:', d['chain'])
+        print('disagreement:', what or 'none')
+        return
+    if d.get('stream') == 'mutators':
+        print('the mutator stream is re-run as a whole (seed %s)' % R.seed)
+        run_mutators(R)
         return
     if d.get('stream') == 'exotic node objects':
         g, obs = exotic_case(d['family'], d['n'], [tuple(e) for e in d['E']], d['X'])
